@@ -333,6 +333,17 @@ func (w *c07hWorld) apply(op c07hOp, seq bool) bool {
 			time.Sleep(time.Millisecond)
 		}
 		if gone {
+			// the sweep itself closes the connection (its callback is CloseConnection, which drops the
+			// session map entry before it closes the stream): once the transport is seen closed the
+			// connection must be gone from GetConnection too, before any adapter cleanup is played
+			kind := "unauthenticated"
+			if reg.Authenticated {
+				kind = "authenticated"
+			}
+			w.run.Count("swept_"+kind, 1)
+			if _, ok := sm.GetConnection(c.ConnID); ok {
+				w.run.Violation("C07:swept-conn-still-in-session-connmap|conn="+kind, map[string]any{"conn": c.ConnID, "trace": w.tail()})
+			}
 			w.run.Count("heartbeat_timeouts_swept", 1)
 		} else {
 			w.run.Count("watchdog_sweep", 1)
@@ -554,6 +565,7 @@ func TestVerifC07HandshakeRandom(t *testing.T) {
 	run.Floor("duplicate_login_attempts", 20)
 	run.Floor("older_removed_after_newer_took_index", 1)
 	run.Floor("heartbeat_timeouts_swept", 10)
+	run.Floor("swept_unauthenticated", 5)
 	run.Floor("evicted_conns_reaped", 50)
 	run.Floor("failed_handshakes", 20)
 	run.Floor("cloud_faults_on_disconnect", 50)
